@@ -142,6 +142,21 @@ new.append(entry("C13",
     not_decided=["Date.UnmarshalJSON / DateTime JSON forms (C14)", "the recombination of system date and time in GetStatus / Listen (sysdatetime closures): covered only through the SystemDate/SystemTime decoder contracts"],
     explanation="Every date producer (ToDate, ParseDate, the wire decoders of Date, DateTime, SystemDate, SystemTime) is verified against a `civil` postcondition: whenever the calendar day (the civil date-time) exists in the process-local zone, the result has exactly the requested year, month, day (hour, minute, second); the wire encoders write exactly the civil fields; lemmaRoundTripDate / lemmaRoundTripDateTime compose the two from the contracts alone, for the zero values too. The zone offset function is uninterpreted, so the proof covers every zone."))
 
+
+LAYOUTS = ["Ints", "Last", "Addrs", "Types", "Dates", "Pointers", "Fixed", "Outer"]
+new.append(entry("C18",
+    functions=["encoding/UTO311-L0x.lemmaLayout" + n for n in LAYOUTS] + ["encoding/UTO311-L0x.lemmaDecode" + n for n in ("Fixed", "Outer", "Addrs")],
+    scope=[r"^encoding/UTO311-L0x\.lemma"],
+    pinned_file="pins_codec.json", pinned_labels=["contract"],
+    replay=[{"match": "Addrs", "driver": "codec_layouts", "pkg": "encoding/UTO311-L0x", "case": "mac"},
+            {"match": "Fixed", "driver": "codec_layouts", "pkg": "encoding/UTO311-L0x", "case": "fixed"},
+            {"match": "Ints", "driver": "codec_layouts", "pkg": "encoding/UTO311-L0x", "case": "uint16"},
+            {"match": "encoding/UTO311-L0x.lemma", "driver": "codec_layouts", "pkg": "encoding/UTO311-L0x", "case": "all"}],
+    assumptions=COMMON_ASSUME,
+    bounded=["the quantifier over all layouts of the tag grammar is NOT discharged generically (reflection on a statically unknown type is outside the engine's model): it is replaced by a fixed family of 9 layouts (encoding/UTO311-L0x/lemmas_verif.go) that covers every supported field kind, fields ending on byte 63, pointer variants of the nil-tolerant types, one level of embedding and decimal / hexadecimal / upper-case value tags; for each layout of the family the proof is unbounded in the field values"],
+    not_decided=["layouts outside the family (other offsets and combinations)"],
+    explanation="For each layout of the family the lemma function Unmarshal(Marshal(v)) is verified with the reflective codec executed on its real body: exact bytes at each declared offset and zero elsewhere, decode(encode(v)) == v, function-code and fixed-value tags emitted and enforced, decoded slices share no memory with the buffer or the encoded value, and no run-time panic (all index/slice/nil obligations), for every in-domain value of every field."))
+
 ids = {e["id"] for e in new}
 out = [p for p in props if p["id"] not in ids] + new
 out.sort(key=lambda p: p["id"])
